@@ -12,9 +12,11 @@ import (
 	_ "verifharness/props/c07"
 	_ "verifharness/props/c08"
 	_ "verifharness/props/c09"
+	_ "verifharness/props/c10"
 	_ "verifharness/props/c11"
 	_ "verifharness/props/c12"
 	_ "verifharness/props/c13"
+	_ "verifharness/props/c17"
 )
 
 func main() { mc.Main() }
